@@ -43,6 +43,15 @@ type vconn struct {
 	// wblock, if non-nil: the peer does not read, every Write blocks until the
 	// connection is closed (then fails)
 	wblock chan struct{}
+	// faults: before the octet at this offset is delivered, Read fails once
+	// with the given error (a read deadline that expires while the peer is
+	// slow); the octets after it still arrive
+	faults  map[int]error
+	fired   map[int]bool
+	expired bool // a deadline has expired: every Read fails until SetReadDeadline moves it
+	// onRead, if set, is called at the start of every Read that delivers octets,
+	// with the input position
+	onRead func(pos int)
 	// script, if set, is called when the input is exhausted (a lock-step
 	// client): it may append to in and return true to continue.
 	script func(c *vconn) bool
@@ -60,6 +69,9 @@ func (c *vconn) Read(b []byte) (int, error) {
 	if c.closed {
 		return 0, net.ErrClosed
 	}
+	if c.expired {
+		return 0, verifTimeoutErr{}
+	}
 	if c.pos >= len(c.in) && c.script != nil {
 		for c.pos >= len(c.in) && c.script(c) {
 		}
@@ -76,12 +88,30 @@ func (c *vconn) Read(b []byte) (int, error) {
 		}
 		return 0, c.final
 	}
+	if e, ok := c.faults[c.pos]; ok && !c.fired[c.pos] {
+		if c.fired == nil {
+			c.fired = map[int]bool{}
+		}
+		c.fired[c.pos] = true
+		if _, isTimeout := e.(verifTimeoutErr); isTimeout {
+			c.expired = true
+		}
+		return 0, e
+	}
+	if c.onRead != nil {
+		c.onRead(c.pos)
+	}
 	n := len(c.in) - c.pos
 	if n > len(b) {
 		n = len(b)
 	}
 	if c.seg > 0 && n > c.seg {
 		n = c.seg
+	}
+	for off := range c.faults {
+		if off > c.pos && off < c.pos+n {
+			n = off - c.pos
+		}
 	}
 	for _, cut := range c.cuts {
 		if cut > c.pos && cut < c.pos+n {
@@ -124,8 +154,8 @@ func (c *vconn) release() {
 }
 func (c *vconn) LocalAddr() net.Addr                { return verifAddr{} }
 func (c *vconn) RemoteAddr() net.Addr               { return verifAddr{} }
-func (c *vconn) SetDeadline(t time.Time) error      { return nil }
-func (c *vconn) SetReadDeadline(t time.Time) error  { return nil }
+func (c *vconn) SetDeadline(t time.Time) error      { c.expired = false; return nil }
+func (c *vconn) SetReadDeadline(t time.Time) error  { c.expired = false; return nil }
 func (c *vconn) SetWriteDeadline(t time.Time) error { return nil }
 
 // TLS stub hooks: the engine's crypto/tls intrinsics route a *tls.Conn that
@@ -195,6 +225,8 @@ type vbackend struct {
 	mechs         []string
 	saslFn        func(s *vsession, mech string) (sasl.Server, error)
 	onNewSession  func(c *Conn)
+	logoutYield   bool  // Logout is slow: other goroutines may run while it is in progress
+	logoutErr     error // Logout's return value
 	helloSeen     []string
 	tlsSeen       []bool
 	lastSession   *vsession
@@ -240,9 +272,15 @@ func (s *vsession) Reset() {
 	s.b.trace = append(s.b.trace, vevent{kind: "Reset", sess: s.id})
 }
 func (s *vsession) Logout() error {
+	if s.b.logoutYield {
+		verifYield()
+	}
 	s.loggedOut++
 	s.b.trace = append(s.b.trace, vevent{kind: "Logout", sess: s.id})
-	return nil
+	if s.b.logoutYield {
+		verifYield()
+	}
+	return s.b.logoutErr
 }
 func (s *vsession) Mail(from string, opts *MailOptions) error {
 	var err error
